@@ -195,6 +195,28 @@ def run_stream(pid, stream, seed, n, first, tag):
     return res
 
 
+def run_race(which, seed, rounds, log):
+    """Validation only: goroutines under the race detector (C16 / C17)."""
+    with Lock("build.lock"):
+        env = dict(GOENV, CGO_ENABLED="1")
+        rc, out = sh(["go", "build", "-race", "-o", os.path.join(WORK, "harness-race"), "."], cwd=HARNESS, env=env, timeout=900)
+        log.append(("go build -race harness", rc, out[-1500:]))
+    if rc != 0:
+        return {"built": False, "note": "race-enabled build unavailable: " + out[-300:]}
+    d = os.path.join(WORK, "race-%s-%d" % (which, os.getpid()))
+    shutil.rmtree(d, ignore_errors=True); os.makedirs(d)
+    rc, out = sh([os.path.join(WORK, "harness-race"), "-mode", "race", "-prop", which, "-seed", str(seed), "-n", str(rounds), "-out", d],
+                 env=dict(GOENV, GORACE="halt_on_error=0 exitcode=66"), timeout=1800)
+    info = {"built": True, "rc": rc, "data_race": "DATA RACE" in out, "output_tail": out[-2500:] if rc else ""}
+    try:
+        info.update(json.load(open(os.path.join(d, "race.json"))))
+    except Exception:
+        pass
+    shutil.rmtree(d, ignore_errors=True)
+    log.append(("race validation " + which, rc, "data_race=%s" % info["data_race"]))
+    return info
+
+
 def case_ops(run_dir, case):
     """The Go-level op lines of one case."""
     ops, on = [], False
@@ -326,6 +348,18 @@ def main(argv):
             else:
                 runs.append(run_stream(pid, stream, seed, n, 0, stream))
 
+    race_info = None
+    if ok_h and cfg.get("race"):
+        race_info = run_race(cfg["race"], seed, 40 if tier == "thorough" else 6, log)
+        if race_info.get("data_race") or race_info.get("mismatches"):
+            p = write_replay(pid, "race", race_info)
+            print("VIOLATION property=%s replay=%s" % (pid, os.path.relpath(p, VERIF)))
+            race_fail = True
+        else:
+            race_fail = False
+    else:
+        race_fail = False
+
     known = [f for f in load_known()["findings"] if f["property"] == pid and f.get("status") == "open"]
     known_tags = {f["match"]: f for f in known}
 
@@ -399,6 +433,8 @@ def main(argv):
             out_lines.append("VIOLATION property=%s replay=%s no-failing-input-found" % (pid, os.path.relpath(p, VERIF)))
         status = 1
 
+    if race_fail:
+        status = 1
     wall = time.time() - t0
     n_thm = len(thms)
     n_gen_obl = len(cfg.get("generated_obligations", []))
@@ -420,6 +456,7 @@ def main(argv):
             "known_findings_hit": known_hit, "input_distribution": stats,
             "samples": samples[:3] or [["(no cases generated)"]],
             "broken_obligations": [b[0] for b in broken],
+            "race_validation": race_info,
             "steps": [{"step": s, "rc": rc, "note": note[:300]} for (s, rc, note) in log],
         },
         "assumptions": cfg.get("assumptions", []),
